@@ -4,6 +4,7 @@ import (
 	"bytes"
 	"fmt"
 	"io"
+	"os"
 	"regexp"
 	"strings"
 	"unicode/utf8"
@@ -508,7 +509,7 @@ func c07Exec(sc *c07Scn, ds []core.Delivery, log *core.Log) *c07Obs {
 			if _, ok := r.(*core.SimReader); ok {
 				return r
 			}
-			if r == io.Reader(nullFile()) {
+			if f, ok := r.(*os.File); ok && f.Name() == "/dev/null" {
 				return r
 			}
 			d := core.Delivery{}
